@@ -79,6 +79,9 @@ def surrounding(rng, tag, rich, same_names=()):
         ["def zq_loader_{0}(zq_path):".format(tag), "    with open(zq_path) as zq_f:", "        ConfigClass = zq_f.read()",
          "    if ConfigClass:", "        f_target = len(ConfigClass)", "    else:", "        f_target = 0",
          "    for set_cli_args in range(f_target):", "        pass", "    return ConfigClass, f_target"],
+        # a plain function whose PARAMETERS carry the targets' simple names
+        ["def zq_build_{0}(ConfigClass, f_target=3, *, set_cli_args=None):".format(tag), "    return ConfigClass, f_target, set_cli_args"],
+        ["def zq_make_{0}(zq_first, set_cli_args=None, f_target=3, ConfigClass=dict):".format(tag), "    return zq_first, ConfigClass"],
     ]
     k_before = rng.randint(0, 3)
     k_after = rng.randint(0, 3)
@@ -210,6 +213,11 @@ def make_project(rng, root, truth, prestates, method=False, rich=False, kinds=KI
             f.write(text)
         if crlf:
             feats.setdefault("crlf_files", []).append(os.path.basename(fn))
+        # (for a definition that is not there yet, the scan meets the bystander wherever it stands)
+        pn = any(l.startswith(("def zq_build_", "def zq_make_")) for l in (before + after if state == "absent" else before))
+        feats["{}_param_named_like_target_before".format("extra" if is_extra else kind)] = pn
+        feats["some_file_has_param_named_like_target"] = feats.get("some_file_has_param_named_like_target", False) or \
+            any(l.startswith(("def zq_build_", "def zq_make_")) for l in before + after)
         if is_extra:
             continue
         feats["{}_func_before".format(kind)] = func_before
